@@ -21,7 +21,7 @@ LEVEL = "fault_enumeration"
 RULE = ("Tables (local and fake S3; 2-4 retained snapshots chosen by the seed) with a manifest rewritten by a partial delete, a live transaction whose data "
         "file is 2 h old, an in-flight manifest protected by a payload marker, a data file protected by a legacy empty-payload marker, an abandoned (25 h) "
         "marker, and deletable 2 h old orphans, all reachable files aged 2 h so that any wrong decision deletes something. (a) a fault at EVERY step of a "
-        "clean collection run (local: storage API calls and the os-level calls under them, once as a one-shot error and once persisting for that call on that file; S3: every request, failing persistently through all retries), "
+        "clean collection run (local: storage API calls and the os-level calls under them, once as a one-shot error and once persisting for that call on that file; S3 (2 keys per listing page): every request, once as a single transient error that the retry layer absorbs and once failing persistently through all retries), "
         "(b) each of the three listings returning an escaping path, (c) every reachable metadata-plane file x {delete, truncations, random bytes} that an "
         "independent parser rejects. Oracle: a run that raised deleted nothing; a run that returned deleted no file that is reachable in the UNDAMAGED "
         "table or protected by a live marker. Non-trivial: the fault hit a call whose result feeds the reachable/protected sets (anything before the first "
@@ -164,6 +164,8 @@ def run_variant(task):
     wk, variant = task["world"], task["variant"]
     with scratch_dir("c07") as d:
         base = c04.make_world(d, wk)
+        if wk != "local":
+            base.fake.page_size = 2  # every listing of the collector spans several pages
         tx_live, P, deletable = build(base, variant)
         v = read_view(base.fs())
         R = reachable_files(v) | {"metadata/" + v["metadata_file"]}
@@ -189,7 +191,7 @@ def run_variant(task):
                 if idx % task["nshard"] != task["shard"]:
                     continue
                 # local: a one-shot error, and a PERSISTENT one (the same call on the same file keeps failing, other calls work)
-                for sticky in ((False, True) if wk == "local" else (True,)):
+                for sticky in (False, True):
                     wi = base.clone(f"{d}/f{k}") if wk == "local" else base.clone()
                     sti = Stepper()
                     fired = []
